@@ -17,13 +17,14 @@ CONSTANTS MaxEntries,  \* entries per namespace
           MaxGen,      \* reopen generations
           UseBlobs,    \* which contents (subset of MCAllBlobs)
           InPlace,     \* BOOLEAN: include modify_file_in_place (enabled after a reopen)
+          Boot,        \* BOOLEAN: include add_eltorito / rm_eltorito / links to the boot catalog
           CfgIds,      \* which configurations (indices into Cfgs)
           Modes,       \* consistency modes of the object: subset of {"lazy", "always"}
           Dump         \* "none" | "hist" | "edges"
 
 MCNames   == {"a", "b", "l"}
-MCAllBlobs == {"z", "s", "t", "e", "o", "q"}
-MCBlobs   == UseBlobs
+MCAllBlobs == {"z", "s", "t", "e", "o", "q", "cat"}
+MCBlobs   == UseBlobs \cup {"cat"}
 MCTargets == {"t1"}
 MCCode == [n \in MCNames |->
     CASE n = "a" -> [iso |-> <<65,65,46,59,49>>, rr |-> <<97,97>>, jol |-> <<97,97>>, udf |-> <<97,97>>]
@@ -33,7 +34,7 @@ MCCode == [n \in MCNames |->
                      jol |-> <<108,111,110,103,110,97,109,101,57>>,
                      udf |-> <<108,111,110,103,110,97,109,101,57>>]]
 MCBlobLen == [b \in MCAllBlobs |-> CASE b = "z" -> 0 [] b = "s" -> 1 [] b = "t" -> 2 [] b = "e" -> 2048
-                                        [] b = "o" -> 2049 [] b = "q" -> 4096]
+                                        [] b = "o" -> 2049 [] b = "q" -> 4096 [] b = "cat" -> 2048]
 
 VARIABLES st, h, nref, nsched
 
@@ -72,7 +73,7 @@ CandsOf(s) ==
                \cup {<<NoPath, jp, NoPath>> : jp \in Known(s.jol)}
                \cup {<<NoPath, NoPath, up>> : up \in Known(s.udf)}
         nss == {ns \in {"iso", "jol", "udf"} : HasNs(s, ns)}
-    IN  {[a |-> "AddFp", blob |-> b, iso |-> t[1], jol |-> t[2], udf |-> t[3]] : b \in Blobs, t \in tri}
+    IN  {[a |-> "AddFp", blob |-> b, iso |-> t[1], jol |-> t[2], udf |-> t[3]] : b \in UseBlobs, t \in tri}
    \cup {[a |-> "AddDir", iso |-> t[1], jol |-> t[2], udf |-> t[3]] : t \in tri}
    \cup {[a |-> "RmDir", iso |-> t[1], jol |-> t[2], udf |-> t[3]] : t \in rmtri}
    \cup UNION {{[a |-> "AddHardLink", ons |-> o, old |-> p, nns |-> n, new |-> q] :
@@ -81,8 +82,13 @@ CandsOf(s) ==
    \cup UNION {{[a |-> "RmFile", ns |-> n, p |-> p] : p \in Known(Tree(s, n))} : n \in nss}
    \cup UNION {{[a |-> x, ns |-> n, p |-> p] : x \in {"SetHidden", "ClearHidden"}, p \in Known(Tree(s, n))} :
             n \in {ns \in {"iso", "jol"} : HasNs(s, ns)}}
+   \cup (IF Boot
+         THEN {[a |-> "AddEltorito", boot |-> bp, cat |-> c] : bp \in Known(s.iso), c \in {q \in Paths : Len(q) = 1}}
+              \cup {[a |-> "RmEltorito"]}
+              \cup {[a |-> "AddHardLink", ons |-> "bootcat", old |-> NoPath, nns |-> n, new |-> q] : n \in nss, q \in Paths}
+         ELSE {})
    \cup (IF InPlace /\ s.gen > 0 /\ ~s.dirty
-         THEN {[a |-> "ModifyInPlace", p |-> p, blob |-> b] : p \in Known(s.iso), b \in Blobs} ELSE {})
+         THEN {[a |-> "ModifyInPlace", p |-> p, blob |-> b] : p \in Known(s.iso), b \in UseBlobs} ELSE {})
    \cup {[a |-> "AddSymlink", iso |-> t[1], jol |-> NoPath, udf |-> t[3], t |-> tg] :
             tg \in Targets, t \in {u \in tri : u[2] = NoPath}}
 
